@@ -674,6 +674,54 @@ func emitAccessC08(pk map[string]*pkgInfo) string {
 					all = append(all, accessC08{"layer4.Connection." + a.field, s.name, a.kind, s.many})
 				}
 			}
+			// (5) listener.handle after the hand-over: once pipeConnection has sent the Connection to the
+			// wrapped listener, its consumer reads and writes it concurrently with the rest of handle.
+			// Counter reads in handle after compiledRoute.Handle that are not behind a test for
+			// errHijacked are concurrent with the consumer's Connection.Read / Write.
+			if fd := l4.findFunc("listener", "handle"); fd != nil {
+				norm := func(n ast.Node) string { return strings.Join(strings.Fields(l4.src(n)), "") }
+				after, guarded := false, false
+				fields := map[string]bool{}
+				for _, st := range fd.Body.List {
+					if !after {
+						if strings.Contains(norm(st), "compiledRoute.Handle(") {
+							after = true
+						}
+						continue
+					}
+					if is, ok := st.(*ast.IfStmt); ok {
+						c := norm(is.Cond)
+						if strings.Contains(c, "errHijacked") {
+							if !strings.HasPrefix(c, "!") && !strings.Contains(c, "&&!errors.Is(err,errHijacked)") && len(is.Body.List) > 0 {
+								if _, ret := is.Body.List[len(is.Body.List)-1].(*ast.ReturnStmt); ret {
+									guarded = true // `if errors.Is(err, errHijacked) { ...; return }`
+								}
+							}
+							if strings.HasPrefix(c, "!errors.Is(err,errHijacked)") || strings.Contains(c, "&&!errors.Is(err,errHijacked)") {
+								continue // the body only runs for connections that were not handed over
+							}
+						}
+					}
+					if guarded {
+						continue
+					}
+					ast.Inspect(st, func(n ast.Node) bool {
+						if se, ok := n.(*ast.SelectorExpr); ok && (se.Sel.Name == "bytesRead" || se.Sel.Name == "bytesWritten") {
+							fields[se.Sel.Name] = true
+						}
+						return true
+					})
+				}
+				for f := range fields {
+					all = append(all, accessC08{"layer4.Connection." + f, "listener.handle(after hand-over)", "read", false})
+					m := map[string]string{"bytesRead": "Read", "bytesWritten": "Write"}[f]
+					for _, a := range byMethod[m] {
+						if a.field == f {
+							all = append(all, accessC08{"layer4.Connection." + f, "wrapped listener's consumer>Connection." + m, a.kind, false})
+						}
+					}
+				}
+			}
 		}
 	}
 
